@@ -423,16 +423,18 @@ func genPortTok(r *hlib.Rand) string {
 	return fmt.Sprintf("i%d", r.Intn(65536))
 }
 
-// genCfg returns the tokens of one configuration value and a tag of its kind; `bad` selects which invalid shape
-// (0 = valid).
-func genCfg(r *hlib.Rand, p *cfgPool) string {
+// genCfg returns the tokens of one configuration value; with badOK about a quarter are invalid, one invalid
+// shape each (every error return of the three FromConfig functions and of newCalculatedRemote).
+func genCfg(r *hlib.Rand, p *cfgPool, badOK bool) string {
 	switch r.Intn(20) {
 	case 0, 1, 2:
 		return fmt.Sprintf("absent:%d", hlib.Pick(r, 0, 0, 1))
 	case 3, 4:
 		return "map 0"
 	case 5:
-		return fmt.Sprintf("nonmap:%d", r.Intn(len(nonMapVals)))
+		if badOK {
+			return fmt.Sprintf("nonmap:%d", r.Intn(len(nonMapVals)))
+		}
 	}
 	// a map of 1..len(ranges) ranges of the pool
 	n := 1
@@ -442,7 +444,7 @@ func genCfg(r *hlib.Rand, p *cfgPool) string {
 	perm := randPerm(r, len(p.ranges))[:n]
 	sort.Ints(perm) // one canonical order per subset, so that "the same section again" is the same text
 	bad := 0
-	if r.Chance(1, 4) {
+	if badOK && r.Chance(1, 4) {
 		bad = 1 + r.Intn(11)
 	}
 	badAt := r.Intn(n)
@@ -516,11 +518,11 @@ func genHistory(r *hlib.Rand, emit func(string, ...any)) {
 			emit("probe %s", hlib.AddrHex(a))
 		}
 	}
-	prev := genCfg(r, p)
+	prev := genCfg(r, p, r.Chance(1, 5)) // the initial load mostly succeeds (otherwise there is no lighthouse)
 	emit("cfgload %s", prev)
 	probes()
 	for k := 1 + r.Intn(4); k > 0; k-- {
-		c := genCfg(r, p)
+		c := genCfg(r, p, true)
 		if r.Chance(1, 6) {
 			c = prev // the same section again: HasChanged is false
 		}
